@@ -192,6 +192,19 @@ func c03Ops() []c03Op {
 			stmts: func(s c03State, el c03Elem) []Stmt {
 				return []Stmt{Assign{Names: []string{"v"}, Vals: []Expr{Call{Fn: "pick", Args: []Expr{SliceLit{Elem: el.t, Elems: []Expr{el.vals[1]}}, SliceLit{Elem: el.t, Elems: []Expr{el.vals[2], el.vals[3]}}}}}}}
 			}},
+		// a slice literal written ONCE but executed twice (inside a loop): every execution makes a new object
+		c03Op{name: "v,w=literal in a loop, 1st and 2nd iteration kept", ok: always,
+			apply: func(s *c03State) {
+				s.objs = append(s.objs, []int{1, 2}, []int{1, 3})
+				s.v, s.w = len(s.objs)-2, len(s.objs)-1
+			},
+			stmts: func(s c03State, el c03Elem) []Stmt {
+				return []Stmt{For{Init: Define{Names: []string{"lk"}, Form: DefShort, Vals: []Expr{lit(0)}}, Cond: Binary{Op: "<", L: Var{"lk"}, R: lit(2)}, Post: IncDec{Name: "lk", Inc: true}, Body: []Stmt{
+					Define{Names: []string{"lt"}, Form: DefShort, Vals: []Expr{SliceLit{Elem: el.t, Elems: []Expr{el.vals[1]}}}},
+					If{Cond: Binary{Op: "==", L: Var{"lk"}, R: lit(0)}, Then: []Stmt{SliceSet{Name: "lt", I: lit(1), Val: el.vals[2]}, Assign{Names: []string{"v"}, Vals: []Expr{Var{"lt"}}}},
+						Else: []Stmt{SliceSet{Name: "lt", I: lit(1), Val: el.vals[3]}, Assign{Names: []string{"w"}, Vals: []Expr{Var{"lt"}}}}, HasElse: true},
+				}}}
+			}},
 		// a range loop nested in a range loop over a slice of another length
 		c03Op{name: "nested range v x w", ok: func(s c03State) bool { return len(s.objs[s.v])*len(s.objs[s.w]) <= 40 }, apply: func(*c03State) {},
 			stmts: func(c03State, c03Elem) []Stmt {
@@ -343,9 +356,7 @@ func c03Histories(r *findings.Run, stats *c03Stats, deadline time.Time) {
 	ops := c03Ops()
 	for ei, el := range c03Elems {
 		kAll, kBFS := 2, 3
-		if ei == 0 {
-			kAll = 3
-		}
+		_ = ei // (quick used to run all paths of depth 3 for []int: with ~30 operations that alone was 25 000 programs)
 		if el.tag != "" {
 			kBFS = 2 // a variant of an element type: all histories of two operations
 		}
